@@ -347,7 +347,14 @@ prop_compose! {
 /// the general problem-case strategy: random observations (far from the model's range),
 /// tame parameters, all flavours
 pub fn case_strategy(cfg: CaseCfg) -> impl Strategy<Value = ProblemCase> {
-    (spec_strategy(cfg.spec), raw_case()).prop_map(move |(spec, raw)| {
+    (spec_strategy(cfg.spec), raw_case()).prop_map(move |(spec, raw)| case_from_raw(cfg, spec, raw))
+}
+
+pub type RawCase = (u16, u16, u16, Vec<u16>, Vec<f64>, u16, u16, u16, u16, u16);
+
+/// the pure construction behind `case_strategy` (also used by the fuzz targets)
+pub fn case_from_raw(cfg: CaseCfg, spec: ModelSpec, raw: RawCase) -> ProblemCase {
+    {
         let (n_pick, s_pick, xkind, us, ys, wclass, epsclass, epsu, flags, collide) = raw;
         let m = spec.m();
         let n = m + pick(n_pick, cfg.max_n - m + 1);
@@ -371,7 +378,7 @@ pub fn case_strategy(cfg: CaseCfg) -> impl Strategy<Value = ProblemCase> {
             mrhs,
             reverse_derivs: flags & 32 == 32,
         }
-    })
+    }
 }
 
 /// a list of further tame parameter vectors for update histories
@@ -569,7 +576,19 @@ pub fn family_from_raw(cfg: FamCfg, us: &[u16], seed: u64) -> FamCase {
         }
         if cfg.weights && u() < 0.5 {
             let span = if cfg.wide_weights && u() < 0.25 { 6.0 } else { 1.0 };
-            case.w = Some((0..n).map(|_| 10f64.powf(span * (u() - 0.5))).collect());
+            let mut w: Vec<f64> = (0..n).map(|_| 10f64.powf(span * (u() - 0.5))).collect();
+            // zero and negative weights (statistics generators only)
+            if cfg.wide_weights && u() < 0.3 {
+                for v in w.iter_mut() {
+                    let r = u();
+                    if r < 0.12 {
+                        *v = 0.0;
+                    } else if r < 0.3 {
+                        *v = -*v;
+                    }
+                }
+            }
+            case.w = Some(w);
         }
     }
     case
